@@ -103,6 +103,16 @@ macro_rules! build_indexed {
                     junk.push(g.add_node(-1));
                 }
             }
+            if garbage && rng.chance(1, 2) {
+                // a first generation of edges wiped by clear_edges: stale list heads must not leak into what follows
+                let all: Vec<NodeIndex<u32>> = g.node_indices().collect();
+                for _ in 0..1 + rng.below(4) {
+                    let a = all[rng.below(all.len())];
+                    let b = all[rng.below(all.len())];
+                    g.add_edge(a, b, E::from_i64(GARBAGE_W));
+                }
+                g.clear_edges();
+            }
             for &k in &eo {
                 let (s, t, w) = ag.edges[k];
                 if garbage && rng.chance(1, 3) {
